@@ -40,6 +40,37 @@ Definition prep_nb (n : nat) (nbz : list (list Z)) (sizes : list nat) : res (lis
   | None => Raise IndexError
   end.
 
+(* ---------------- mesh_util.rectangular_neighbors_from: the six region loops as sequential row writes ----------------
+   neighbors[p, 0:k] = [...]; neighbors_sizes[p] = k  becomes  rows[p] := [...]  (later writes win); values over Z
+   because the index arithmetic (W - 2, pixels - 2W ...) leaves the range for degenerate shapes *)
+Definition rect_write (rows : list (list Z)) (p : Z) (v : list Z) : list (list Z) := upd_set rows (Z.to_nat p) v.
+Definition rect_neighbors (H W : nat) : list (list Z) :=
+  let h := Z.of_nat H in let w := Z.of_nat W in let pixels := (h * w)%Z in
+  let s := repeat [] (H * W) in
+  (* corners *)
+  let s := rect_write s 0 [1; w]%Z in
+  let s := rect_write s (w - 1) [w - 2; w + w - 1]%Z in
+  let s := rect_write s (pixels - w) [pixels - w * 2; pixels - w + 1]%Z in
+  let s := rect_write s (pixels - 1) [pixels - w - 1; pixels - 2]%Z in
+  (* top edge: for pix in range(1, W - 1) *)
+  let s := fold_left (fun s pix => let p := Z.of_nat pix in rect_write s p [p - 1; p + 1; p + w]%Z) (seq 1 (W - 2)) s in
+  (* left edge: for pix in range(1, H - 1) *)
+  let s := fold_left (fun s pix => let p := (Z.of_nat pix * w)%Z in rect_write s p [p - w; p + 1; p + w]%Z) (seq 1 (H - 2)) s in
+  (* right edge *)
+  let s := fold_left (fun s pix => let p := (Z.of_nat pix * w + w - 1)%Z in rect_write s p [p - w; p - 1; p + w]%Z) (seq 1 (H - 2)) s in
+  (* bottom edge: for pix in range(1, W - 1): pixel_index = pixels - pix - 1 *)
+  let s := fold_left (fun s pix => let p := (pixels - Z.of_nat pix - 1)%Z in rect_write s p [p - w; p - 1; p + 1]%Z) (seq 1 (W - 2)) s in
+  (* central *)
+  fold_left (fun s x => fold_left (fun s y => let p := (Z.of_nat x * w + Z.of_nat y)%Z in
+                                              rect_write s p [p - w; p - 1; p + 1; p + w]%Z) (seq 1 (W - 2)) s) (seq 1 (H - 2)) s.
+(* specification: the 4-neighbourhood of pixel p = r * W + c on an H x W grid, in the order up, left, right, down *)
+Definition grid_neighbors (H W p : nat) : list nat :=
+  let r := (p / W)%nat in let c := (p mod W)%nat in
+  (if (0 <? r)%nat then [(p - W)%nat] else []) ++ (if (0 <? c)%nat then [(p - 1)%nat] else [])
+  ++ (if (c + 1 <? W)%nat then [(p + 1)%nat] else []) ++ (if (r + 1 <? H)%nat then [(p + W)%nat] else []).
+Definition grid_rows (H W : nat) : list (list nat) := map (grid_neighbors H W) (seq 0 (H * W)).
+Definition shapes (lo hi : nat) : list (nat * nat) := flat_map (fun h => map (fun w => (h, w)) (seq lo (hi + 1 - lo))) (seq lo (hi + 1 - lo)).
+
 Section Model.
   Context {O : NumOps}.
   Notation T := (T O).
@@ -164,6 +195,18 @@ Section Model.
     | Some prows => Ok (split_matrix_prepared eps w prows)
     | None => Raise IndexError
     end.
+
+  (* ---------------- gauss_cov_matrix_from / exp_cov_matrix_from ----------------
+     for i: C[i,i] += 1e-8; for j: d_ij = sqrt((xi-xj)^2 + (yi-yj)^2); C[i,j] += exp(...)   (points are (y, x) pairs)
+     [kern] is the profile as a function of the SQUARED distance: exp(-sqrt(d2)^2 / (2 s^2)) resp. exp(-sqrt(d2) / s) *)
+  Definition dist2 (p q : T * T) : T := add O (sq (sub O (snd p) (snd q))) (sq (sub O (fst p) (fst q))).
+  Definition cov_entries (eps : T) (kern : T -> T) (pts : list (T * T)) : list entry :=
+    flat_map (fun ip => (fst ip, fst ip, eps) :: map (fun jq => (fst ip, fst jq, kern (dist2 (snd ip) (snd jq)))) (indexed pts))
+             (indexed pts).
+  Definition cov_matrix (eps : T) (kern : T -> T) (pts : list (T * T)) : mat := build (length pts) (cov_entries eps kern pts).
+  (* coefficient * numpy.linalg.inv(covariance): the inverse is an oracle, given by its contract  C K = I *)
+  Definition scale_matrix (c : T) (K : mat) : mat := map (map (mul O c)) K.
+  Definition mat_vec (M : mat) (x : list T) : list T := map (fun r => dot r x) M.
 
   (* ---------------- block-diagonal assembly ---------------- *)
   Definition width (M : mat) : nat := length (hd [] M).
@@ -385,11 +428,20 @@ Definition matches_qf (q : qv -> Q) (n : nat) (H : qm) : bool :=
                              (Qred ((q (@vadd QOps (@unit QOps n a) (@unit QOps n b)) - nth a d 0 - nth b d 0) / 2)))
              (seq (S a) (n - S a))) (seq 0 n).
 
+(* finite sweep used by Props: for every shape in the list the model of rectangular_neighbors_from equals the
+   4-neighbourhood specification, whose neighbour relation is in range and symmetric *)
+Definition rect_shape_ok (hw : nat * nat) : bool :=
+  let rows := grid_rows (fst hw) (snd hw) in
+  list_eqb (list_eqb Z.eqb) (rect_neighbors (fst hw) (snd hw)) (map (map Z.of_nat) rows) && nb_ok rows.
+
 Inductive case :=
 | KMatrix (s : scheme) (o : lobj) (out : res qm)            (* regularization_matrix_from / the util function *)
 | KWeights (s : scheme) (o : lobj) (out : qv)               (* regularization_weights_from *)
 | KSplit (o : lobj) (out : res (list (list Z) * list nat * qm))   (* reg_split_from *)
-| KInversion (objs : list (option scheme * lobj)) (blocks : list qm) (out outr : qm).
+| KInversion (objs : list (option scheme * lobj)) (blocks : list qm) (out outr : qm)
+| KRect (H W : nat) (out : list (list Z))                    (* Mesh2DRectangular.neighbors: first sizes[p] entries of row p *)
+| KCov (pts : list (Q * Q)) (tbl : list (Q * Q)) (out : qm)   (* gauss_/exp_cov_matrix_from; tbl: squared distance -> profile value *)
+| KKernel (coef : Q) (cov out : qm).                           (* GaussianKernel / ExponentialKernel .regularization_matrix_from *)
                                                             (* inversion.regularization_matrix(_reduced);
                                                                blocks = linear_obj.regularization_matrix of each object *)
 
@@ -409,6 +461,15 @@ Definition model_objs (objs : list (option scheme * lobj)) : option (list (nat *
                                        | Raise _ => None end
                            end) objs).
 
+Definition tbl_lookup (tbl : list (Q * Q)) (d2 : Q) : Q :=
+  match find (fun kv => Qeq_bool (fst kv) d2) tbl with Some kv => snd kv | None => 0 end.
+Definition tol_inv : Q := 1 # 10000000.        (* 1e-7: numpy.linalg.inv on moderately conditioned covariance matrices *)
+Definition close_inv (a b : Q) : bool := Qle_bool (Qabs (a - b)) (tol_inv * (1 + Qabs b)).
+Definition mat_mul_q (A B : qm) : qm :=
+  let n := length B in
+  map (fun r => map (fun j => @dot QOps r (map (fun rb => nth j rb 0) B)) (seq 0 (length (hd [] B)))) A.
+Definition scaled_identity (c : Q) (n : nat) : qm := map (fun a => map (fun b => if Nat.eqb a b then c else 0) (seq 0 n)) (seq 0 n).
+
 Definition agree (k : case) : bool :=
   match k with
   | KMatrix s o out => res_eqb qm_close (scheme_matrix s o) out
@@ -421,6 +482,11 @@ Definition agree (k : case) : bool :=
                    && list_eqb qm_close (map (@obj_matrix QOps) mo) blocks
       | None => false
       end
+  | KRect H W out => list_eqb (list_eqb Z.eqb) (rect_neighbors H W) out
+  | KCov pts tbl out => qm_close (@cov_matrix QOps eps8 (tbl_lookup tbl) pts) out
+  | KKernel coef cov out =>
+      (* the only model of numpy.linalg.inv is its contract: cov * out = coef * I *)
+      list_eqb (list_eqb close_inv) (mat_mul_q cov out) (scaled_identity coef (length cov))
   end.
 
 (* the specification's verdict on what the implementation returned; never calls the loops of the model *)
@@ -464,6 +530,22 @@ Definition spec_ok (k : case) : bool :=
       && forallb (fun sb => match fst (fst sb) with
                             | None => forallb (forallb (Qeq_bool 0)) (snd sb) && square (o_params (snd (fst sb))) (snd sb)
                             | Some s => square (scheme_size s (snd (fst sb))) (snd sb) end) (combine objs blocks)
+  | KRect H W out =>
+      (* the property is silent on shapes a mapper cannot have (Rectangular demands >= 3 x 3; the 4-neighbourhood needs >= 2 x 2) *)
+      if (2 <=? H)%nat && (2 <=? W)%nat then list_eqb (list_eqb Z.eqb) out (map (map Z.of_nat) (grid_rows H W)) && nb_ok (grid_rows H W)
+      else true
+  | KCov pts tbl out =>
+      let n := length pts in
+      square n out && symmetric_close n out
+      && forallb (fun a => forallb (fun b =>
+            close (@mget QOps out a b)
+                  (Qred ((if Nat.eqb a b then eps8 else 0) + tbl_lookup tbl (@dist2 QOps (nth a pts (0, 0)) (nth b pts (0, 0))))))
+           (seq 0 n)) (seq 0 n)
+  | KKernel coef cov out =>
+      let n := length cov in
+      square n out
+      && forallb (fun a => forallb (fun b => close_inv (@mget QOps out a b) (@mget QOps out b a)) (seq 0 n)) (seq 0 n)
+      && list_eqb (list_eqb close_inv) (mat_mul_q out cov) (scaled_identity coef n)
   end.
 
 Definition check (k : case) : nat := verdict (agree k) (spec_ok k).
